@@ -36,7 +36,11 @@ FLEX_NEGATIVE = int(__import__("os").environ.get("VERIF_C07_FLEX_NEGATIVE", "0")
 #     on the re-measure is never padded back to max_width; 0 = `table_width = sum(widths)` after the re-measure
 #     (fix f955c6c = pending_fixes/C07-table-expand-stale-width.diff)
 STALE_TABLE_WIDTH = int(__import__("os").environ.get("VERIF_C07_STALE_TABLE_WIDTH", "0"))
-FLAGS = (LEADING_REPEAT, MIN_WIDTH_CAPS_EXPAND, FIXED_RAW_MAXIMUM, NO_COLUMNS_ASSERTS, FLEX_NEGATIVE, STALE_TABLE_WIDTH)
+# 1 = the flexible widths are clamped with max(0, width): a zero-ratio column that finds no room gets 0 cells, and one back from the
+#     `maximum or 1` re-measure after the collapse, so an expanding table is ONE CELL TOO WIDE; 0 = max(minimum, width): a
+#     zero-ratio column keeps its flex minimum like every other flexible column (pending_fixes/C01-table-ratio-zero-column.diff)
+FLEX_CLAMP_ZERO = int(__import__("os").environ.get("VERIF_C07_FLEX_CLAMP_ZERO", "0"))
+FLAGS = (LEADING_REPEAT, MIN_WIDTH_CAPS_EXPAND, FIXED_RAW_MAXIMUM, NO_COLUMNS_ASSERTS, FLEX_NEGATIVE, STALE_TABLE_WIDTH, FLEX_CLAMP_ZERO)
 
 BOXES = [None, "HEAVY_HEAD", "CUSTOM", "ASCII", "SQUARE", "MINIMAL", "SIMPLE", "ROUNDED", "DOUBLE_EDGE", "HORIZONTALS", "SIMPLE_HEAVY",
          "MINIMAL_DOUBLE_HEAD", "ASCII_DOUBLE_HEAD", "HEAVY", "DOUBLE", "SQUARE_DOUBLE_HEAD", "MINIMAL_HEAVY_HEAD", "SIMPLE_HEAD",
